@@ -265,6 +265,40 @@ def run(ctx, col: Collector):
                 return False
             guard_obligation(ctx, col, 'C17-endpoint', v, f'mixed-tables-{side}', mixed,
                              [EXC + 'DBMLError'], protect=is_normal_return, what=f'columns of {side} belong to different tables')
+        # the stand-alone DBML form of a reference names one table per side: it must go through the validating accessors (`model.table1` / `model.table2`, which
+        # call _validate first, or _validate itself) on every path that produces text - taking the table from the first column of a side renders a mixed side
+        from .common import expanded as _expanded
+        # (read on the registered renderer with its helpers in place, so that it does not matter which of them does the validation)
+        rn = _expanded(ctx, 'pydbml.renderer.dbml.default.reference', 'render_reference', keep_extra=('_validate',))
+        mp = [a.arg for a in rn.node.args.args][0]
+        n_ret = 0
+        unvalidated = None
+        for path in function_paths(rn.node, unroll=1):
+            if path[-1].kind != 'return':
+                continue
+            lits = [c for ev in path if ev.kind == 'test' for c in conjuncts(term(ev.node, ev.outcome))]
+            if ('truthy', f'{mp}.inline') in lits:
+                continue            # the inline form names one column of one table
+            n_ret += 1
+            ok_ = False
+            for ev in path:
+                for x in walk_event(ev):
+                    if isinstance(x, ast.Attribute) and x.attr in ('table1', 'table2', 'join_table') and norm(x.value) == mp and isinstance(x.ctx, ast.Load):
+                        ok_ = True
+                    if isinstance(x, ast.Call) and isinstance(x.func, ast.Attribute) and x.func.attr == '_validate' and norm(x.func.value) == mp:
+                        ok_ = True
+            if not ok_:
+                unvalidated = unvalidated or path[-1]
+        cons_v = 'render_not_inline_reference:validates-sides'
+        if n_ret == 0:
+            col.unk('C17-endpoint', cons_v, 'the DBML render_reference has no returning path for the stand-alone form that this rule can follow', node=rn.node, file=rn.file)
+        elif unvalidated is None:
+            col.ok('C17-endpoint', cons_v, f'every path of the stand-alone DBML form reads {mp}.table1 / {mp}.table2 (validated accessors) ({n_ret} paths)', node=rn.node, file=rn.file)
+        else:
+            uses_first = any(isinstance(x, ast.Attribute) and x.attr == 'table' and isinstance(x.value, ast.Subscript) for x in ast.walk(rn.node))
+            col.bad('C17-endpoint', cons_v, f'the stand-alone DBML form of a reference is returned on a path that never reads {mp}.table1 / {mp}.table2 (nor calls _validate)'
+                    f'{": it takes the table from the first column of a side" if uses_first else ""} - a reference whose side mixes columns of different tables is '
+                    f'rendered as if it were consistent instead of raising DBMLError', node=unvalidated.node if unvalidated.node is not None else rn.node, file=rn.file)
         # composite inline DBML
         ri = idx.func('pydbml.renderer.dbml.default.reference', 'render_inline_reference')
         rp = [a.arg for a in ri.node.args.args][0]
